@@ -343,8 +343,13 @@ impl<'a> Rw<'a> {
                 }
             }
             "unreachable" | "todo" | "unimplemented" | "panic" => {
-                self.fire("R-ABORT");
-                Some(parse_quote!(rt_abort()))
+                if self.opts.extra.contains_key("abort_diverges") {
+                    self.fire("R-ABORT.diverge");
+                    Some(parse_quote!(rt_diverge()))
+                } else {
+                    self.fire("R-ABORT");
+                    Some(parse_quote!(rt_abort()))
+                }
             }
             "info" | "debug" | "warn" | "error" | "trace" if first_seg == "log" => {
                 self.fire("R-FMT.log");
@@ -733,10 +738,43 @@ impl<'a> VisitMut for Rw<'a> {
             }
             Expr::Cast(c) => {
                 if let syn::Type::Path(tp) = &*c.ty {
-                    if tp.path.is_ident("Q") {
+                    if tp.path.is_ident("u32") && self.opts.extra.get("q_to_u32_casts").map(|l| l.split(',').any(|f| ts_str(&c.expr).ends_with(f.trim()))).unwrap_or(false) {
+                        // f64 -> u32 `as` cast (saturating truncation): an uninterpreted function of the real value
+                        let inner = &c.expr;
+                        self.fire("R-CAST.q_to_u32");
+                        replacement = Some(parse_quote!(q_to_u32(#inner)));
+                    } else if tp.path.is_ident("Q") {
                         let inner = &c.expr;
                         self.fire("R-CAST.toQ");
                         replacement = Some(parse_quote!(Q::from_usize((#inner) as usize)));
+                    }
+                }
+            }
+            Expr::Index(ix) if self.opts.extra.contains_key("checked_index_diverges") => {
+                // R-CHECKED: safe indexing panics when out of range: modelled as diverging (no obligation);
+                // only former get_unchecked sites (R-UNSAFE) remain as plain, to-be-proved indexing
+                if !matches!(&*ix.index, Expr::Range(_)) {
+                    let b = &ix.expr;
+                    let i = &ix.index;
+                    self.fire("R-CHECKED.index");
+                    replacement = Some(parse_quote!((*checked_index(&#b, #i))));
+                }
+            }
+            Expr::Assign(a) if self.opts.extra.contains_key("checked_index_diverges") => {
+                // `v[i] = x` where the lhs was rewritten to (*checked_index(&v, i)) by the child visit
+                if let Expr::Paren(p) = &*a.left {
+                    if let Expr::Unary(u) = &*p.expr {
+                        if let Expr::Call(c) = &*u.expr {
+                            if ts_str(&c.func) == "checked_index" && c.args.len() == 2 {
+                                if let Expr::Reference(r) = &c.args[0] {
+                                    let b = &r.expr;
+                                    let i = &c.args[1];
+                                    let v = &a.right;
+                                    self.fire("R-CHECKED.set");
+                                    replacement = Some(parse_quote!(checked_set(&mut #b, #i, #v)));
+                                }
+                            }
+                        }
                     }
                 }
             }
@@ -825,6 +863,14 @@ impl<'a> VisitMut for Rw<'a> {
                             let lit = syn::LitInt::new(&k.to_string(), Span::call_site());
                             self.fire("R-UNIT.powi");
                             replacement = Some(parse_quote!(#recv.powi(#lit)));
+                        }
+                    }
+                    "unwrap" if args.is_empty() && matches!(&**recv, Expr::MethodCall(m) if m.method == "try_into" && m.args.is_empty()) => {
+                        // R-TRYINTO: `x.try_into().unwrap()` panics when the value does not fit: modelled as diverging
+                        if let Expr::MethodCall(m) = &**recv {
+                            let inner = &m.receiver;
+                            self.fire("R-TRYINTO");
+                            replacement = Some(parse_quote!(try_into_unwrap(#inner)));
                         }
                     }
                     "unwrap_or_else" if args.len() == 1 => {
@@ -1492,6 +1538,29 @@ fn process_type(req: &ItemReq, opts: &Opts, file: &syn::File, uc: &BTreeMap<Stri
     out
 }
 
+fn process_alias(req: &ItemReq, opts: &Opts, file: &syn::File, uc: &BTreeMap<String, String>, consts: &BTreeMap<String, Expr>) -> ItemOut {
+    let mut out = ItemOut { id: req.id.clone(), file: req.file.clone(), ..Default::default() };
+    for it in &file.items {
+        if let syn::Item::Type(t) = it {
+            if t.ident == req.name {
+                let mut t2 = t.clone();
+                t2.attrs.clear();
+                t2.vis = parse_quote!(pub);
+                let mut rw = Rw { opts, uc, consts, rules: BTreeMap::new(), events: vec![], errors: vec![], counters: BTreeMap::new(), self_free: false };
+                rw.visit_type_mut(&mut t2.ty);
+                out.line_start = t.type_token.span.start().line;
+                out.line_end = t.semi_token.span.end().line;
+                out.rules = rw.rules;
+                out.text = quote!(#t2).to_string();
+                out.ok = true;
+                return out;
+            }
+        }
+    }
+    out.error = Some(format!("type alias not found: {}", req.name));
+    out
+}
+
 /// the struct as written, keeping only derive(HistoryMethods|HistoryVec) and #[has_state]:
 /// input for the real proc macros (R-DERIVE)
 fn process_struct_raw(req: &ItemReq, file: &syn::File) -> ItemOut {
@@ -1563,6 +1632,7 @@ fn main() {
                     "fn" | "method" | "traitfn" => process_fn(req, &opts, file, &uc, &consts),
                     "struct" | "enum" => process_type(req, &opts, file, &uc, &consts),
                     "struct_raw" => process_struct_raw(req, file),
+                    "type" => process_alias(req, &opts, file, &uc, &consts),
                     k => ItemOut { id: req.id.clone(), error: Some(format!("unknown kind {}", k)), ..Default::default() },
                 }
             }
